@@ -20,18 +20,18 @@ NewTx == 12
 OldTx == TxId \ {NewTx}
 NoneInFlight == msgs = {}
 SliceNext ==
-    \/ up[1] /\ coord[NewTx].phase = "none" /\ \E t \in OldTx : ClientWrite(t, 1)
-    \/ up[1] /\ \E m \in msgs : RecvReplicate(m, FALSE) \/ RecvReply(m) \/ RecvConfirm(m, FALSE) \/ Lose(m)
-    \/ up[1] /\ NoneInFlight /\ \E t \in OldTx : GiveUp(t)
-    \/ up[1] /\ NoneInFlight /\ (\A t \in OldTx : coord[t].phase # "replicating") /\ Crash(1)
-    \/ ~up[1] /\ view[2] = Node /\ ViewChange(2, {2, 3})
-    \/ ~up[1] /\ view[2] = {2, 3} /\ view[3] = Node /\ ViewChange(3, {2, 3})
-    \/ ~up[1] /\ view[3] = {2, 3} /\ ncrash = 1 /\ Crash(3)
-    \/ ~up[1] /\ ~up[3] /\ Restart(3)
-    \/ ~up[1] /\ ncrash = 2 /\ up[3] /\ coord[NewTx].phase = "none" /\ ClientWrite(NewTx, 2)
-    \/ coord[NewTx].phase # "none" /\ \E m \in msgs : RecvReplicate(m, FALSE) \/ RecvReply(m) \/ RecvConfirm(m, FALSE)
-    \/ coord[NewTx].phase = "replicating" /\ NoneInFlight /\ GiveUp(NewTx)
-SliceSpec == Init /\ [][SliceNext /\ CCNext]_vars
+    \/ up[1] /\ coord[NewTx].phase = "none" /\ \E t \in OldTx : ClientWriteC(t, 1)
+    \/ up[1] /\ \E m \in msgs : RecvReplicateC(m, FALSE) \/ RecvReplyC(m) \/ RecvConfirmC(m, FALSE) \/ LoseC(m)
+    \/ up[1] /\ NoneInFlight /\ \E t \in OldTx : GiveUpC(t)
+    \/ up[1] /\ NoneInFlight /\ (\A t \in OldTx : coord[t].phase # "replicating") /\ CrashC(1)
+    \/ ~up[1] /\ view[2] = Node /\ ViewChangeC(2, {2, 3})
+    \/ ~up[1] /\ view[2] = {2, 3} /\ view[3] = Node /\ ViewChangeC(3, {2, 3})
+    \/ ~up[1] /\ view[3] = {2, 3} /\ ncrash = 1 /\ CrashC(3)
+    \/ ~up[1] /\ ~up[3] /\ RestartC(3)
+    \/ ~up[1] /\ ncrash = 2 /\ up[3] /\ coord[NewTx].phase = "none" /\ ClientWriteC(NewTx, 2)
+    \/ coord[NewTx].phase # "none" /\ \E m \in msgs : RecvReplicateC(m, FALSE) \/ RecvReplyC(m) \/ RecvConfirmC(m, FALSE)
+    \/ coord[NewTx].phase = "replicating" /\ NoneInFlight /\ GiveUpC(NewTx)
+SliceSpec == Init /\ [][SliceNext]_vars
 EmitSlice == (coord[NewTx].phase \in {"acked", "failed"} /\ NoneInFlight) =>
            PrintT(<<"REPLAY", ToJson([steps |-> h, rf |-> RF, streams |-> [t \in TxId |-> TxStream[t]], real_coordinator |-> NewTx,
                                       logs |-> [n \in Node |-> log[n]], cnts |-> [n \in Node |-> cnt[n]],
